@@ -222,6 +222,12 @@ namespace pika::split_tuple_detail {
 
         void set_predecessor_done()
         {
+            // The receiver only refers to the shared state by reference. As soon as
+            // predecessor_done has been published below, consumers may complete inline on
+            // other threads and release the last reference to the shared state. Keep it
+            // alive until this function is done with it.
+            pika::intrusive_ptr<shared_state> keep_alive{this};
+
             // We reset the operation state as soon as the predecessor
             // is done to release any resources held by it. Any values
             // sent by the predecessor have already been stored in the
